@@ -65,12 +65,8 @@ func init() {
 
 // inmemClassEdges is the in-memory half of C03.R1/R2 (C02.R5).
 func (c *Ctx) inmemClassEdges(r *inmemRoles, r1, r2 string) {
-	sentinel := func(v ssa.Value) string {
-		if g := globalOf(v); g != nil {
-			return g.Name()
-		}
-		return ""
-	}
+	sentinel := r.errSentinel
+	c.inmemLiveHelperSound(r, r1)
 	var presenceFact func(f ir.Fact, want bool) bool
 	presenceFact = func(f ir.Fact, want bool) bool {
 		ff := f.StripNot()
@@ -87,18 +83,8 @@ func (c *Ctx) inmemClassEdges(r *inmemRoles, r1, r2 string) {
 			}
 			return all
 		}
-		ex, ok := ff.Cond.(*ssa.Extract)
-		if !ok || ex.Index != 1 || ff.True != want {
-			return false
-		}
-		switch t := ex.Tuple.(type) {
-		case *ssa.Lookup:
-			_, isRecs := loadOfField(t.X, r.recs)
-			return isRecs
-		case *ssa.Call:
-			return r.liveHelpers[ir.StaticCallee(t)]
-		}
-		return false
+		_, present, ok := r.lookupOutcome(f)
+		return ok && present == want
 	}
 	witness := func(f ir.Fact, want bool, depth int) bool { return r.presenceWitness(f, want, depth, presenceFact) }
 	presence := func(e ir.ExitPoint, want bool) bool {
@@ -218,7 +204,7 @@ func (c *Ctx) inmemClassEdges(r *inmemRoles, r1, r2 string) {
 					if ex, isEx := o.(*ssa.Extract); isEx && ex.Index == 0 {
 						switch t := ex.Tuple.(type) {
 						case *ssa.Lookup:
-							_, okV = loadOfField(t.X, r.recs)
+							okV = r.isRecsVal(t.X)
 						case *ssa.Call:
 							okV = r.liveHelpers[ir.StaticCallee(t)]
 						}
